@@ -52,9 +52,18 @@ func SegmenterByName(name string, seed int64) Segmenter {
 var ErrWouldBlock = errors.New("transport: read would block (the reader wants more bytes than were written)")
 
 // ErrInjected is the class of injected faults; each injection gets its own value.
-type ErrInjected struct{ What string }
+type ErrInjected struct {
+	What string
+	// Inner, when set, makes the injected error itself a wrapper (like *net.OpError or *os.PathError,
+	// which every non-EOF error of a real connection or file is): the root cause of a failure is the
+	// transport's error VALUE, not whatever that value wraps.
+	Inner error
+}
 
 func (e *ErrInjected) Error() string { return "injected fault: " + e.What }
+
+// Unwrap exposes the inner error, as the standard library's wrappers do.
+func (e *ErrInjected) Unwrap() error { return e.Inner }
 
 // Stream is an unbounded FIFO of bytes with one writer side and one reader side.
 type Stream struct {
